@@ -978,7 +978,12 @@ def build(spec: dict) -> tuple[xr.Dataset, Truth]:
         for name in ds.variables:
             reordered[name].encoding.update(ds[name].encoding)
         ds = reordered
-    if spec.get('explicit_names'):
+    if spec.get('plugin') == 'holed':
+        get_convention(ds, truth, spec)
+        truth['bound_explicitly'] = True
+        for n in spec['plugin_missing']:
+            truth['polygons'][int(n)] = None
+    elif spec.get('explicit_names'):
         # the convention constructed by hand with its coordinates named, and bound, before anything else happens
         get_convention(ds, truth, spec)
         truth['bound_explicitly'] = True
@@ -1020,7 +1025,21 @@ def add_decoy(ds: xr.Dataset, truth) -> xr.Dataset:
 def get_convention(ds: xr.Dataset, truth: Truth, spec: dict):
     """The convention object for a case: autodetected through the accessor, or -- with 'explicit_names' --
     constructed by hand through the documented keyword path and bound."""
-    if not spec.get('explicit_names') or truth.get('bound_explicitly'):
+    if truth.get('bound_explicitly'):
+        return ds.ems
+    if spec.get('plugin') == 'holed':
+        # a plugin convention derived from a built-in one through the documented hook: some cells are land, no polygon
+        from emsarray.conventions.grid import CFGrid1D
+        missing = sorted(int(n) for n in spec['plugin_missing'])
+
+        class LandMaskedGrid(CFGrid1D):
+            def _make_polygons(self):
+                polygons = super()._make_polygons().copy()
+                polygons[missing] = None
+                return polygons
+        LandMaskedGrid(ds).bind()
+        return ds.ems
+    if not spec.get('explicit_names'):
         return ds.ems
     family = truth['family']
     if family in ('cf1d', 'cf2d'):
